@@ -75,6 +75,20 @@ PLANS = {
         "assumptions": ["deadlock = no thread can run and no timer is pending (exact in the simulator); the 30 s bounds are virtual time with injected stalls subtracted",
                         "nng_pipe_close is asynchronous by design: only handles of closed sockets/contexts/dialers/listeners are required to be invalid immediately"],
     },
+    "C20": {
+        "disabled": True,  # being triaged: see DESIGN.md
+        "level": "fault_enumeration",
+        "rule": ("each program is run once fault-free under a fixed seed to count its allocations N, then once per k with "
+                 "allocation k failing (same seed, hence the identical execution up to the failure); a run is non-trivial "
+                 "if the injected failure actually fired; distinct = distinct trace hash"),
+        "budget_s": {"quick": 55, "thorough": 1200},
+        "quick_first": 120, "quick_sample": 30,
+        "enum_seeds": {"quick": 1, "thorough": 3},
+        "enum_alloc": [{'scenario': 'c20_sp', 'params': {'proto': 0, 'tr': 0}}, {'scenario': 'c20_sp', 'params': {'proto': 0, 'tr': 1}}, {'scenario': 'c20_sp', 'params': {'proto': 0, 'tr': 2}}, {'scenario': 'c20_sp', 'params': {'proto': 0, 'tr': 3}}, {'scenario': 'c20_sp', 'params': {'proto': 1, 'tr': 0}}, {'scenario': 'c20_sp', 'params': {'proto': 1, 'tr': 1}}, {'scenario': 'c20_sp', 'params': {'proto': 1, 'tr': 2}}, {'scenario': 'c20_sp', 'params': {'proto': 1, 'tr': 3}}, {'scenario': 'c20_sp', 'params': {'proto': 2, 'tr': 0}}, {'scenario': 'c20_sp', 'params': {'proto': 2, 'tr': 1}}, {'scenario': 'c20_sp', 'params': {'proto': 2, 'tr': 2}}, {'scenario': 'c20_sp', 'params': {'proto': 2, 'tr': 3}}, {'scenario': 'c20_sp', 'params': {'proto': 3, 'tr': 0}}, {'scenario': 'c20_sp', 'params': {'proto': 3, 'tr': 1}}, {'scenario': 'c20_sp', 'params': {'proto': 3, 'tr': 2}}, {'scenario': 'c20_sp', 'params': {'proto': 3, 'tr': 3}}, {'scenario': 'c20_sp', 'params': {'proto': 4, 'tr': 0}}, {'scenario': 'c20_sp', 'params': {'proto': 4, 'tr': 1}}, {'scenario': 'c20_sp', 'params': {'proto': 4, 'tr': 2}}, {'scenario': 'c20_sp', 'params': {'proto': 4, 'tr': 3}}, {'scenario': 'c20_sp', 'params': {'proto': 5, 'tr': 0}}, {'scenario': 'c20_sp', 'params': {'proto': 5, 'tr': 1}}, {'scenario': 'c20_sp', 'params': {'proto': 5, 'tr': 2}}, {'scenario': 'c20_sp', 'params': {'proto': 5, 'tr': 3}}, {'scenario': 'c20_sp', 'params': {'proto': 6, 'tr': 0}}, {'scenario': 'c20_sp', 'params': {'proto': 6, 'tr': 1}}, {'scenario': 'c20_sp', 'params': {'proto': 6, 'tr': 2}}, {'scenario': 'c20_sp', 'params': {'proto': 6, 'tr': 3}}, {'scenario': 'c20_init', 'params': {'no_init': 1}}, {'scenario': 'c20_device', 'params': {}}, {'scenario': 'c20_http', 'params': {}}],
+        "scenarios": [],
+        "assumptions": ["enumeration is exhaustive over k for each (program, seed) but covers one schedule per seed",
+                        "the allocator seam is nng_init_params.{malloc,calloc,free}_fn; every nng allocation goes through it"],
+    },
     "C18": {
         "level": "exploration",
         "rule": NT_RULE + "; C18: fifo_seq - a fill was refused or a buffer was resized with the path's content "
@@ -139,6 +153,80 @@ PLANS = {
             "c12_connloss asserts the 'whenever the connection is lost' clause by using resend times of 15-60 s and "
             "a bound far below them; c12_resend asserts the 'whenever RESENDTIME elapses' clause with silent loss",
             "raw repliers speak SP over simulated TCP only (8-byte hello, u64 length framing)",
+        ],
+    },
+    "C07": {
+        "level": "exploration",
+        "rule": NT_RULE + "; C07: c07_surv: at least one response was put on the wire and at least one surveyor receive "
+                "was judged against the reference model; c07_resp: at least one response was routed and checked at the raw "
+                "surveyors; c07_conc: at least one response was delivered and checked",
+        "budget_s": {"quick": 50, "thorough": 900},
+        "scenarios": [
+            S("c07_surv", 1200, 36000),
+            S("c07_resp", 600, 18000),
+            S("c07_conc", 500, 15000),
+        ],
+        "assumptions": ["sequential scenarios rely on sim_quiesce (horizon 3 ms > largest configured segment latency) to make "
+                        "'the response has arrived' a definite point",
+                        "the deadline of a survey is only known to lie between the nng clock read before and after the send call; "
+                        "outcomes inside that window plus a generous expiry allowance (20-50 ms + injected stalls) are not judged",
+                        "hostile id streams are produced through raw-mode respondent sockets (any header/body bytes), not a wire-level peer",
+                        "c07_conc uses inproc/tcp/ipc only"],
+    },
+    "C13": {
+        "level": "exploration",
+        "rule": NT_RULE + "; C13: a request crossed at least one nng_device and was answered or discarded as the hop "
+                          "model says (chain), a crafted backtrace was delivered or refused (raw), or a ring was "
+                          "observed to fall silent (loop)",
+        "budget_s": {"quick": 50, "thorough": 900},
+        "scenarios": [
+            S("c13_chain", 1000, 30000),
+            S("c13_raw", 800, 24000),
+            S("c13_loop", 600, 18000),
+        ],
+        "assumptions": [
+            "hop-count convention pinned by the existing suite (test_xrep_ttl_drop): a request that crossed j "
+            "devices is accepted iff j+1 <= MAXTTL of the receiving socket",
+            "MAXTTL of the reply-path sockets (raw REQ / raw SURVEYOR) is not part of the model: a reply does not "
+            "carry the number of hops it has made",
+            "the raw peer is a raw nng socket whose message body carries the crafted backtrace (no private API)",
+            "answers are demanded only when no hop limit is exceeded, at most 3 requests are in flight and no "
+            "connection was disturbed; the wait is 3 s of stall-free virtual time",
+        ],
+    },
+    "C06": {
+        "level": "exploration",
+        "rule": NT_RULE + "; C06: at least one message went from a pusher to a puller and the conservation, "
+                          "duplication, order and back-pressure bookkeeping was evaluated at the end of the run",
+        "budget_s": {"quick": 50, "thorough": 900},
+        "scenarios": [
+            S("c06_mesh", 900, 27000),
+            S("c06_bp", 900, 27000),
+            S("c06_churn", 600, 18000),
+        ],
+        "assumptions": ["send order between two messages is only claimed when the call that submitted the first "
+                        "(nng_sendmsg/nng_send/nng_socket_send) had returned before the call for the second was made; "
+                        "receive order likewise (logical clock kept by the harness)",
+                        "a SENDBUF shrink below the possible occupancy, a lost connection or a closed socket exempts the "
+                        "messages sent before it from the loss check (the statement promises nothing for them); in "
+                        "c06_churn a message still buffered in a pusher that has no connection left is not counted as lost"],
+    },
+    "C14": {
+        "level": "exploration",
+        "rule": NT_RULE + "; C14: at least one pipe was announced (ADD_PRE) and followed to its end, a redial obligation "
+                          "was resolved, a message crossed a pipe or a listener was probed after the faults",
+        "budget_s": {"quick": 50, "thorough": 900},
+        "scenarios": [
+            S("c14_events", 3000, 90000),
+        ],
+        "assumptions": [
+            "redial bounds are measured at the simulated kernel's connect() (simnet_set_connect_hook), from the REM_POST "
+            "callback or from a connect() that could only fail; allowed delay = larger reconnect time + the simulated "
+            "network's connect/latency maxima + 300 ms slack, injected stalls subtracted",
+            "connect() calls are attributed to a dialer by destination address, so the connect()-based bounds apply to "
+            "dialers with an address of their own; shared addresses and inproc get the pipe-based bound only",
+            "reconnect times of 0/1 ms (a dialer that never sleeps) are drawn only together with the fair random-walk "
+            "scheduler, because the unfair schedulers starve other threads for ever then and every time bound is moot",
         ],
     },
 }
